@@ -94,4 +94,79 @@ def findRcritOfSpec (evalF : φ → α → α) (thermo : Nat → α → α) (tol
 
 end
 
+/-! ## the radius interface of one `ShapeFactor` object over a call history
+
+`normalRadii(R)`, `eqRadiusFactor(R)`, `kineticFactor(R)`, `thermoFactor(R)` (lines 386-447):
+```
+ar = self.aspectRatio(R)
+return self.description.xxx(ar)
+```
+The caller's argument is an OBJECT (`obj`, an explicit identity) with CURRENT contents `vals`; an
+in-place update of the caller's array between two evaluations (`R *= c`, `R += d`, `R[:] = …`,
+`R[k] = …`, a write through another view of the same buffer) is the same `obj` with other `vals`
+in the later evaluation.  The code as it is never looks at `obj`. -/
+section radius
+variable {α φ : Type}
+
+/-- one call on a `ShapeFactor`: a setter, or an evaluation of a radius function
+(`which`: 0 eqRadiusFactor, 1 thermoFactor, 2 kineticFactor, 3 normalRadii) -/
+inductive ROp (α φ : Type) where
+  | cfg (op : Op α φ)
+  | eval (which : Nat) (obj : Nat) (vals : List α)
+
+/-- `self.aspectRatio(R)` on the elements of the argument (the user's function is applied element
+by element; `_scalarAspectRatioEquation` gives the stored number for every element) -/
+def aspectRatioArr [Zero α] (evalF : φ → α → α) (st : St α φ) (vals : List α) : List α :=
+  vals.map (aspectRatio evalF st)
+
+/-- one radius function.  `desc shape which ars` is the description-level function of the aspect
+ratios (flat output; KawinV.Shape.wrapArr / radiiArr of the regenerated formulas in the driver) -/
+def evalR [Zero α] (evalF : φ → α → α) (desc : Nat → Nat → List α → List α) (st : St α φ)
+    (which : Nat) (vals : List α) : List α :=
+  desc st.shape which (aspectRatioArr evalF st vals)
+
+/-- the object after a call history and the answers of its evaluations, in call order.
+An evaluation leaves the object as it is. -/
+def runR [Zero α] [One α] (evalF : φ → α → α) (desc : Nat → Nat → List α → List α) :
+    St α φ → List (ROp α φ) → St α φ × List (List α)
+  | st, [] => (st, [])
+  | st, .cfg op :: rest => runR evalF desc (apply st op) rest
+  | st, .eval w _ vs :: rest =>
+    let r := runR evalF desc st rest
+    (r.1, evalR evalF desc st w vs :: r.2)
+
+/-! ### the identity-memo VARIANT (not the code as it is; kept as the named alternative)
+
+```
+def _aspectRatioAt(self, R):
+    if R is not self._lastR:
+        self._lastR, self._lastAR = R, self.aspectRatio(R)
+    return self._lastAR
+```
+with the memo cleared by `setAspectRatio`.  The key is the identity of the argument object, the
+stored value was computed from the contents the object had at that moment. -/
+structure MemoSt (α φ : Type) where
+  st : St α φ
+  lastR : Option Nat
+  lastAR : List α
+
+def memoFresh (st : St α φ) : MemoSt α φ := { st := st, lastR := none, lastAR := [] }
+
+/-- `_aspectRatioAt(R)`: state afterwards (the answer is its `lastAR`) -/
+def memoLookup [Zero α] (evalF : φ → α → α) (m : MemoSt α φ) (obj : Nat) (vals : List α) :
+    MemoSt α φ :=
+  if m.lastR = some obj then m
+  else { m with lastR := some obj, lastAR := aspectRatioArr evalF m.st vals }
+
+def memoRun [Zero α] [One α] (evalF : φ → α → α) (desc : Nat → Nat → List α → List α) :
+    MemoSt α φ → List (ROp α φ) → MemoSt α φ × List (List α)
+  | m, [] => (m, [])
+  | m, .cfg op :: rest => memoRun evalF desc (memoFresh (apply m.st op)) rest
+  | m, .eval w obj vs :: rest =>
+    let m' := memoLookup evalF m obj vs
+    let r := memoRun evalF desc m' rest
+    (r.1, desc m'.st.shape w m'.lastAR :: r.2)
+
+end radius
+
 end KawinV.SFState
